@@ -31,7 +31,7 @@ func init() {
 		Doc: "for every unit whose product with an 8-digit value can overflow int64 (computed from the unit table), the multiplication in decodeTimeout is reached only where the value was compared against a bound <= MaxInt64/unit",
 		Run: ruleTimeoutClamp})
 	register(&Rule{Name: "STATS-PAYLOAD-EACH", Floor: 3,
-		Doc: "in every stream method that emits payload stats events, on the projection where a stats handler is installed every successful return passes the event: no further condition (message size, count) can skip it",
+		Doc: "in every stream method that emits payload stats events, on the projection where a stats handler is installed every successful return passes the event: no further condition (message size, count) can skip it (a return whose error is not known non-nil counts as a possible success)",
 		Run: ruleStatsPayloadEach})
 	register(&Rule{Name: "SEL-INSERT", Floor: 1,
 		Doc: "setRules appends a rule to a selector node only in the arms where the current component is '*' or the selector is exhausted; a named component only descends",
